@@ -773,6 +773,24 @@ impl ClientConfig {
     }
 }
 
+#[cfg(feature = "verif-hooks")]
+#[doc(hidden)]
+impl ServerConfig {
+    /// Verification hook: binds the UDP socket exactly as `Endpoint::server` would.
+    pub fn verif_bind_socket(self) -> std::io::Result<UdpSocket> {
+        self.bind_address_config.bind_socket()
+    }
+}
+
+#[cfg(feature = "verif-hooks")]
+#[doc(hidden)]
+impl ClientConfig {
+    /// Verification hook: binds the UDP socket exactly as `Endpoint::client` would.
+    pub fn verif_bind_socket(self) -> std::io::Result<UdpSocket> {
+        self.bind_address_config.bind_socket()
+    }
+}
+
 impl Default for ClientConfig {
     fn default() -> Self {
         ClientConfig::builder()
